@@ -365,7 +365,8 @@ func kdcCheck(sc KdcScenario, res *KdcResult) (outcome string, v []vsched.Violat
 		for _, c := range good {
 			want := c.Reply
 			if c.Proto == "udp" {
-				want = append([]byte{0, 0, 0, byte(len(c.Reply))}, c.Reply...)
+				l := len(c.Reply)
+				want = append([]byte{byte(l >> 24), byte(l >> 16), byte(l >> 8), byte(l)}, c.Reply...)
 			}
 			if bytes.Equal(msg, want) {
 				ok = true
